@@ -286,6 +286,19 @@ def check_trace(repo: Repo, rep: Report):
     g = CFG(run.node)
     loops = [n for n in run.node.body if isinstance(n, ast.While)]
     if len(loops) != 1 or not (isinstance(loops[0].test, ast.Constant) and loops[0].test.value is True):
+        # another driver: what each iteration reports must still be what step() executed in that iteration.  A loop that
+        # takes the opcodes to report from somewhere else (the pickle's own opcode list, a counter) reports the wrong
+        # opcodes as soon as the interpreter was stepped before tracing started, or when the two sequences differ
+        others = [n for n in run.node.body if isinstance(n, (ast.For, ast.While)) and any(isinstance(x, ast.Call) and isinstance(x.func, ast.Attribute) and x.func.attr == "step" for x in ast.walk(n))]
+        if len(others) == 1:
+            lp0 = others[0]
+            stepc = [x for x in ast.walk(lp0) if isinstance(x, ast.Call) and isinstance(x.func, ast.Attribute) and x.func.attr == "step"]
+            ons0 = [x for x in ast.walk(lp0) if isinstance(x, ast.Call) and isinstance(x.func, ast.Attribute) and x.func.attr == "on_opcode"]
+            step_targets = {t.id for x in ast.walk(lp0) if isinstance(x, ast.Assign) and any(x.value is sc for sc in stepc) for t in x.targets if isinstance(t, ast.Name)}
+            from_step = bool(ons0) and all(o.args and isinstance(o.args[0], ast.Name) and o.args[0].id in step_targets for o in ons0)
+            if not from_step:
+                rep.bad("C09.trace-passive", run.qualname, "on-opcode-discipline", f"Trace.run reports `{src(ons0[0]) if ons0 else 'nothing'}` per iteration of `{src(lp0.iter) if isinstance(lp0, ast.For) else src(lp0.test)}`, not the opcode that step() returned in that iteration: the reported sequence and the executed sequence are two independent iterations that only coincide for a fresh interpreter", file, lp0.lineno)
+                return
         raise AnalysisError("Trace.run: `while True` driver loop not recognised")
     lp = loops[0]
     steps = [n for n in walk_no_nested(lp) if isinstance(n, ast.Call) and isinstance(n.func, ast.Attribute) and n.func.attr == "step"]
